@@ -22,7 +22,7 @@ ASSUMPTIONS = ['"well conditioned" is made checkable as cond_2(A) <= 1e3 on the 
                'default nswp=22, kickrank=4, local_iterations=40, resets=2']
 REQUIRED_REACH = ['solvers:amen_solve', 'solvers:_amen_solve_python', '_iterative_solvers:gmres_restart', '_iterative_solvers:BiCGSTAB_reset', 'solvers:_LinearOp.apply_prec',
                   'solvers:_LinearOp.matvec', 'solvers:_local_product']
-REQUIRED_COUNTS = {'ran:gmres': 5, 'ran:bicgstab': 5, 'ran:direct': 5, 'ran:prec': 5, 'class:spd': 1, 'class:dd': 1, 'class:lap': 1, 'class:cd': 1, 'option:band_diagonal': 5, 'operator-cores-noncontiguous': 20, 'x0:user': 1, 'x0:near': 3, 'x0:degenerate': 4, 'executions': 150}
+REQUIRED_COUNTS = {'ran:gmres': 5, 'ran:bicgstab': 5, 'ran:direct': 5, 'ran:prec': 5, 'class:spd': 1, 'class:dd': 1, 'class:lap': 1, 'class:cd': 1, 'class:kron': 5, 'option:band_diagonal': 5, 'operator-cores-noncontiguous': 20, 'x0:user': 1, 'x0:near': 3, 'x0:degenerate': 4, 'executions': 150}
 LINE_FUNCS = ['_amen_solve_python', 'BiCGSTAB_reset', 'gmres', '_LinearOp.matvec']
 CASE_TIMEOUT = {'quick': 300, 'thorough': 600}
 MAX_TIMEOUT_FRACTION = 0.0
@@ -79,6 +79,14 @@ def cases(tier, seed):
                 c = dict(base)
                 c.update({'prec': prec, 'max_full': max_full, 'ls': ls, 'x0': 'near', 'sidx': 0})
                 cs.append(c)
+    # directed: operators of TT-rank ONE (Kronecker products of small well-conditioned matrices) with right-hand sides of rank 1..4
+    for i in range(36 if not T else 300):
+        d = rng.choice([2, 3, 3, 4])
+        N = [rng.randint(2, 6) for _ in range(d)]
+        confs = [(p_, mf_, ls_) for p_ in (None, 'c', 'r') for mf_ in (500, 0) for ls_ in (1, 2) if not (mf_ == 500 and ls_ == 2 and p_ is not None)]
+        prec, max_full, ls = confs[i % len(confs)]
+        cs.append({'gen': 'solve', 'cls': 'kron', 'N': N, 'RB': [1] * (d + 1), 'Rb': gens.rank_profile(rng, d, 'rand', 4), 'rhs': ['random', 'image'][i % 2], 'kfac': ['spd', 'dd'][(i // 2) % 2], 'cfac': 1.0,
+                   'shift': 0.0, 'band': -1, 'eps': 10 ** rng.uniform(-10, -3), 'vseed': rng.randrange(2 ** 40), 'prec': prec, 'max_full': max_full, 'ls': ls, 'x0': ['none', 'user'][(i // 4) % 2], 'sidx': 0})
     # directed: right-hand sides that are (numerically) orthogonal to the default initial guess (all ones) along one mode - e.g. a zero-mean factor
     for i in range(36 if not T else 300):
         cls = ['dd', 'lap', 'spd'][i % 3]
@@ -132,6 +140,19 @@ def build_system(case, ctx, g):
     n = dn.prod(N)
     if cls in ('lap', 'cd'):
         A = laplace_tt(N, case['shift'], dt, conv=(0.5 + (case['cfac'] % 1.0)) if cls == 'cd' else 0.0)
+    elif cls == 'kron':
+        # A = A_1 (x) ... (x) A_d with cond(A_k) <= 1e3^(1/d): SPD factors I + G^T G / |G|^2 * c, or diagonally dominant I + 0.3 G / |G|
+        fac = []
+        cmax = 1e3 ** (1.0 / d)
+        for n_ in N:
+            G = gens.values([n_, n_], dt, 'gauss', g)
+            if case.get('kfac') == 'spd':
+                Gn = G.T @ G
+                Ak = torch.eye(n_, dtype=dt) + (0.5 * (cmax - 1.0)) * Gn / float(torch.linalg.matrix_norm(Gn, 2))
+            else:
+                Ak = torch.eye(n_, dtype=dt) + 0.3 * G / float(torch.linalg.matrix_norm(G, 2))
+            fac.append(Ak.reshape(1, n_, n_, 1))
+        A = torchtt.TT(fac)
     else:
         B = gens.make_tt(N, case['RB'], dt, 'gauss', g, M=N)
         Bm = dn.D(B).reshape(n, n)
